@@ -81,6 +81,24 @@ pub struct StreamCommand {
     port: u16,
 }
 
+/// Verification hooks (compiled only with `--cfg penguin_rs_verif`): the SOCKS session handler and
+/// its error types, for a harness that plays the local client and the main loop.
+#[cfg(penguin_rs_verif)]
+pub use self::handle_remote::{
+    FatalError as VerifFatalError,
+    socks::{Error as VerifSocksSessionError, verif_on_socks_accept},
+};
+
+#[cfg(penguin_rs_verif)]
+impl StreamCommand {
+    /// Verification hook: the parts of a request (the channel the stream goes back on, the
+    /// target host and port), as the main loop sees them.
+    #[must_use]
+    pub fn verif_into_parts(self) -> (oneshot::Sender<MuxStream>, Bytes, u16) {
+        (self.tx, self.host, self.port)
+    }
+}
+
 /// Data for a function to be able to use the mux/connection
 #[derive(Clone, Debug)]
 pub struct HandlerResources {
